@@ -1215,6 +1215,7 @@ func runC11(c *Check) {
 	c.Doc("C11-R6", "= C10-R8: the sequencer's queue never returns an error after it removed the head from memory (the batch would be neither delivered nor kept).")
 	rulePoppedBatchHandedOut(c, sp, "C11-R6")
 	ruleSubmissionWhole(c, sp, "C11-R8")
+	ruleBlockSaveAtomic(c, p, "C11-R9")
 	ruleBasedHandOffCompletes(c, "C11-R7")
 	c.MinInstances("C11-R6", 1)
 	c.MinInstances("C11-R1", 2)
